@@ -238,9 +238,21 @@ def limit_key(limit, name, cls):
   return None, False
 
 
+def _cfg_default(o):
+  # objects inside a layer config (a QActivation holds its quantizer object):
+  # described by class and configuration, never by identity
+  if hasattr(o, "get_config"):
+    return {"class_name": type(o).__name__, "config": o.get_config()}
+  if isinstance(o, np.generic):
+    return o.item()
+  if isinstance(o, np.ndarray):
+    return o.tolist()
+  return repr(o)
+
+
 def layer_cfg(layer):
   return json.loads(json.dumps(layer.get_config(), sort_keys=True,
-                               default=repr))
+                               default=_cfg_default))
 
 
 class Oracle:
@@ -908,7 +920,8 @@ def generate(rng):
            "wseed": rng.subseed(),
            "activation_bits": rng.pick([2, 4, 8]),
            "tune_filters": rng.wpick([("none", 3), ("layer", 1), ("block", 1)]),
-           "tune_filters_exceptions": rng.pick(["^$", "^fc.*$", "^cv0$"]),
+           "tune_filters_exceptions": rng.pick(["^$", "^fc.*$", "^cv0$", "0$",
+                                                "c1|v0", "1$", "v"]),
            "target": {"delta_p": rng.pick([8.0, 4.0, 1.0]),
                       "delta_n": rng.pick([8.0, 4.0, 2.0]),
                       "rate": rng.pick([2.0, 4.0, 1.5]),
@@ -998,6 +1011,10 @@ def directed():
        {"tune_filters": "layer", "tune_filters_exceptions": "^fc2$"}),
       ("mlp-tune-block", "vec", mlp, {"Dense": [4, 4, 4]},
        {"tune_filters": "block", "tune_filters_exceptions": "^fc2$"}),
+      ("mlp-tune-layer-unanchored-exception", "vec", mlp, {"Dense": [4, 4, 4]},
+       {"tune_filters": "layer", "tune_filters_exceptions": "2$"}),
+      ("mlp-tune-block-unanchored-exception", "vec", mlp, {"Dense": [4, 4, 4]},
+       {"tune_filters": "block", "tune_filters_exceptions": "c1|c2"}),
       ("mlp-default-int-short-lists", "vec", mlp, {"Dense": [4],
                                                    "Activation": [4],
                                                    "default": 6}, {}),
